@@ -278,7 +278,7 @@ def run(ck):
             if items is not None and len(items) == 4:
                 s_, tg, b1, b2 = items
                 # N = 1 and n = 1 are data files too: what is loaded must keep its (rows, columns) layout for them
-                for nm_, v_ in (("samples", s_), ("training bases", b1)):
+                for nm_, v_ in (("samples", s_), ("training bases", b1), ("list of all bases", b2)):
                     rk = len(v_.shape) if isinstance(v_, VTens) and v_.shape is not None else None
                     ck.check(rk == 2, "C19.R3", "load_data:%s keep two axes for every file" % nm_, ld.site(),
                              "the %s are what np.loadtxt returns without ndmin=2: a file with a single row (N = 1) or a single column (one site) is squeezed to a 1-D array, so the row / site axes "
@@ -311,7 +311,7 @@ def run(ck):
             ok = items is not None and len(items) == 4 and isinstance(items[1], VTens) and items[1].term == T.stack0(T.sym("file(re_path)"), T.sym("file(im_path)"))
             ck.check(ok, "C19.R3", "load_data_DM:target (re, im)", ldm.site(), "target matrix is not make_complex(real file, imaginary file)")
             if items is not None and len(items) == 4:
-                for nm_, v_ in (("samples", items[0]), ("training bases", items[2])):
+                for nm_, v_ in (("samples", items[0]), ("training bases", items[2]), ("list of all bases", items[3])):
                     rk = len(v_.shape) if isinstance(v_, VTens) and v_.shape is not None else None
                     ck.check(rk == 2, "C19.R3", "load_data_DM:%s keep two axes for every file" % nm_, ldm.site(),
                              "the %s are what np.loadtxt returns without ndmin=2: a file with a single row or a single column is squeezed to a 1-D array" % nm_, key="C19.R3|load_data_DM|loadtxt-squeezes:%s" % nm_)
